@@ -124,6 +124,12 @@ func evalConfig(cfg Config) (class, msg string) {
 	if err != nil {
 		return "error", err.Error()
 	}
+	// route C ignores trailing slashes (served through the slash-adjusted branch of ServeHTTP)
+	cOpts, cIDs := routeMws("c", 1)
+	cOpts = append(cOpts, fox.WithIgnoreTrailingSlash(true))
+	if _, err := f.Handle("GET", "/c/{p}", handler("HC"), cOpts...); err != nil {
+		return "error", err.Error()
+	}
 	hA := "HA"
 	if cfg.Update >= 0 {
 		uOpts, uIDs := routeMws("u", cfg.Update)
@@ -152,6 +158,7 @@ func evalConfig(cfg Config) (class, msg string) {
 		want string
 	}{
 		{"ServeHTTP GET " + reqA + " (route handler)", run(serve("GET", reqA)), expected(cfg, 0, aIDs, hA)},
+		{"ServeHTTP GET /c/v/ (route handler reached by an ignored trailing slash)", run(serve("GET", "/c/v/")), expected(cfg, 0, cIDs, "HC")},
 		{"ServeHTTP GET /b (route handler, other route)", run(serve("GET", "/b")), expected(cfg, 0, bIDs, "HB")},
 		{"ServeHTTP GET /none (no-route handler)", run(serve("GET", "/none")), expected(cfg, 1, nil, "NR")},
 		{"ServeHTTP POST " + reqA + " (no-method handler)", run(serve("POST", reqA)), expected(cfg, 2, nil, "NM")},
@@ -414,7 +421,7 @@ func init() {
 		Parts: []mc.Part{
 			{Name: "configurations", Run: func(c *mc.Ctx, r *mc.Result) {
 				cfgs := configs(c.Quick())
-				r.Bounds["configurations"] = fmt.Sprintf("%d configurations x 9 observations", len(cfgs))
+				r.Bounds["configurations"] = fmt.Sprintf("%d configurations x 11 observations", len(cfgs))
 				for i, cfg := range cfgs {
 					if !c.Mine(i) {
 						continue
